@@ -224,12 +224,18 @@ func GetSessionValues(sc *SessionCtx) (*SessionValues, error) {
 	if err != nil {
 		return nil, err
 	}
-	if len(sc.AggNonce) != 66 {
+	return SessionValuesFor(kc, sc.AggNonce, sc.Msg)
+}
+
+// SessionValuesFor is the part of GetSessionValues after the key aggregation
+// context (KeyAgg + ApplyTweak chain) has been computed.
+func SessionValuesFor(kc *KeyAggCtx, aggNonce, msg []byte) (*SessionValues, error) {
+	if len(aggNonce) != 66 {
 		return nil, ErrInvalidAggNonce
 	}
-	b := modN(Int(TaggedHash("MuSig/noncecoef", sc.AggNonce, XBytes(kc.Q), sc.Msg)))
-	R1, ok1 := CPointExt(sc.AggNonce[:33])
-	R2, ok2 := CPointExt(sc.AggNonce[33:])
+	b := modN(Int(TaggedHash("MuSig/noncecoef", aggNonce, XBytes(kc.Q), msg)))
+	R1, ok1 := CPointExt(aggNonce[:33])
+	R2, ok2 := CPointExt(aggNonce[33:])
 	if !ok1 || !ok2 {
 		return nil, ErrInvalidAggNonce
 	}
@@ -238,7 +244,7 @@ func GetSessionValues(sc *SessionCtx) (*SessionValues, error) {
 	if Rp.Inf {
 		R = G
 	}
-	e := modN(Int(TaggedHash("BIP0340/challenge", XBytes(R), XBytes(kc.Q), sc.Msg)))
+	e := modN(Int(TaggedHash("BIP0340/challenge", XBytes(R), XBytes(kc.Q), msg)))
 	return &SessionValues{Q: kc.Q, Gacc: kc.Gacc, Tacc: kc.Tacc, B: b, R: R, E: e}, nil
 }
 
